@@ -15,6 +15,8 @@ CLAIMED["C13"] = ("other", "Return-pair typestate of Compile on every path, sing
          "path facts (AST abstract interpreter) at return/emission sites + table agreement")
 CLAIMED["C16"] = ("other", "Sibling/must-check rules on cmd/pql run and main with path facts: every Compile call gets the let prelude, read errors are consulted and returned, the failure flag is sticky, the prelude grows only on validated statements, output format, exit status. Byte-exact stdout over all scripts is a runtime quantity and is not decided.", "DESIGN.md §3 C16",
          "path facts (AST abstract interpreter) at call/return sites of cmd/pql")
+CLAIMED["C14"] = ("proof", "Absence of shared mutable state and ambient input is an effect property of the code, decided soundly by an interprocedural provenance/effect analysis over the SSA form of every function of the two library packages: every write is to call-local memory, globals are written only at init or under their own sync.Once, no goroutines/channels/time/rand/os/reflect/unsafe, map iteration order never reaches output, nil options guarded. All obligations must be discharged or the check fails.", "DESIGN.md §3 C14",
+         "interprocedural effect/provenance analysis on go/ssa (allocation-site classes, fixpoint over call sites)")
 NA = {}
 def main():
     props = [json.loads(l) for l in open('/verif/properties.jsonl')]
